@@ -99,7 +99,7 @@ __CPROVER_assigns(self->position, self->write_size, __CPROVER_object_upto(self->
 /* [C05:bhex-digits]     */ __CPROVER_ensures((POS0 <= g_k && g_k < g_len && g_k + 1 < self->position) ==> V_ISHEX(ABUF(self)[g_k]))
 /* [C05:bhex-accept]     */ __CPROVER_ensures(RET >= 0 ==> (NT >= 2 && NT % 2 == 0 && NT / 2 <= self->var->data_size && V_ISTERM(LASTC) && ((RET == 1) == (LASTC == ','))))
 /* [C05,C08:bhex-size]   */ __CPROVER_ensures(RET >= 0 ==> self->write_size == (NOTRO(self) ? NT / 2 : 0))
-/* [C05:bhex-exact]      */ __CPROVER_ensures((RET >= 0 && NOTRO(self) && g_j < NT / 2) ==> VDATA(self)[g_j] == V_HEXVAL(ABUF(self)[POS0 + 2 * g_j]) * 16 + V_HEXVAL(ABUF(self)[POS0 + 2 * g_j + 1]))
+/* [C05:bhex-exact]      */ __CPROVER_ensures((RET >= 0 && NOTRO(self) && g_j < NT / 2 && g_j < self->var->data_size) ==> VDATA(self)[g_j] == V_HEXVAL(ABUF(self)[POS0 + 2 * g_j]) * 16 + V_HEXVAL(ABUF(self)[POS0 + 2 * g_j + 1]))
 /* [C05,C08:bhex-rest]   */ __CPROVER_ensures((g_j < self->var->data_size && (!NOTRO(self) || g_j >= NT / 2)) ==> VDATA(self)[g_j] == g_oldbyte)
 /* [C05:bhex-reject]     */ __CPROVER_ensures(RET < 0 ==> ((!V_ISHEX(LASTC) && (!V_ISTERM(LASTC) || NT % 2 == 1 || NT == 0)) || (V_ISHEX(LASTC) && NT == 2 * self->var->data_size + 1)))
 ;
@@ -114,9 +114,9 @@ __CPROVER_assigns(self->position, self->write_size, g_size, g_nesc, g_src, g_esc
 /* [C05:str-retcode]     */ __CPROVER_ensures(RET == -1 || RET == 0 || RET == 1)
 /* [C05:str-accept]      */ __CPROVER_ensures(RET >= 0 ==> (ABUF(self)[POS0] == '"' && NT >= 2 && ABUF(self)[self->position - 2] == '"' && NT == g_size + g_nesc + 2 && g_size + 1 <= self->var->data_size && V_ISTERM(LASTC) && ((RET == 1) == (LASTC == ','))))
 /* [C05,C08:str-size]    */ __CPROVER_ensures(RET >= 0 ==> self->write_size == (NOTRO(self) ? g_size : 0))
-/* [C05:str-nul]         */ __CPROVER_ensures((RET >= 0 && NOTRO(self)) ==> VDATA(self)[g_size] == 0)
+/* [C05:str-nul]         */ __CPROVER_ensures((RET >= 0 && NOTRO(self) && g_size < self->var->data_size) ==> VDATA(self)[g_size] == 0)
 /* [C05:str-source]      */ __CPROVER_ensures((RET >= 0 && g_j < g_size) ==> (POS0 < g_src && g_src < self->position && g_src + 2 < self->position && (g_esc ? (V_ISESC(ABUF(self)[g_src]) && ABUF(self)[g_src - 1] == '\\') : (ABUF(self)[g_src] != '\\' && ABUF(self)[g_src] != '"' && ABUF(self)[g_src] != 0))))
-/* [C05:str-exact]       */ __CPROVER_ensures((RET >= 0 && NOTRO(self) && g_j < g_size && g_src < self->position) ==> VDATA(self)[g_j] == (uint8_t)(g_esc ? V_UNESC(ABUF(self)[g_src]) : ABUF(self)[g_src]))
+/* [C05:str-exact]       */ __CPROVER_ensures((RET >= 0 && NOTRO(self) && g_j < g_size && g_j < self->var->data_size && g_src < self->position) ==> VDATA(self)[g_j] == (uint8_t)(g_esc ? V_UNESC(ABUF(self)[g_src]) : ABUF(self)[g_src]))
 /* [C05,C08:str-rest]    */ __CPROVER_ensures((g_j < self->var->data_size && (!NOTRO(self) || g_j > g_size || (RET < 0 && g_j >= g_size))) ==> VDATA(self)[g_j] == g_oldbyte)
 /* [C05:str-reject]      */ __CPROVER_ensures(RET < 0 ==> ((NT == 0 && LASTC != '"') || (NT >= 1 && SEXTRA == 0 && (LASTC == 0 || (LASTC != '\\' && LASTC != '"' && g_size >= self->var->data_size))) || (NT >= 2 && SEXTRA == 1 && ABUF(self)[self->position - 2] == '\\' && (!V_ISESC(LASTC) || g_size >= self->var->data_size)) || (NT >= 2 && SEXTRA == 1 && ABUF(self)[self->position - 2] == '"' && (!V_ISTERM(LASTC) || g_size >= self->var->data_size))))
 ;
